@@ -110,3 +110,36 @@ func verifC15_SessionStep() {
 	}
 }
 
+
+// verifC15_ResendVsPuback: "a message is not retransmitted after it is acknowledged" under
+// concurrency - a resend tick runs while the client's PUBACK for the only in-flight message is
+// being processed. Under every interleaving: whatever is put on the connection's queue is put
+// there before the processing of the PUBACK has finished (the decision to retransmit and the
+// enqueueing are one step with respect to the acknowledgement).
+func verifC15_ResendVsPuback() {
+	b := vBroker()
+	c := vClient(b, "c0", 8)
+	b.clients["c0"] = c
+	s := c.session
+	verifRaceScope(s, "Session")
+	id := uint16(verifInt("inflightID", 0, 65535))
+	s.pending[id] = newMsg("t0", []byte{1}, QoS1)
+	s.pendingQueue = append(s.pendingQueue, id)
+	s.nextID = id + 1
+	done := make(chan struct{})
+	go func() {
+		s.doResend()
+		close(done)
+	}()
+	ack := packets.NewControlPacket(packets.Puback).(*packets.PubackPacket)
+	ack.MessageID = id
+	verifAssert(c.processPacket(ack) == nil, "puback-accepted")
+	queuedWhenAcknowledged := len(c.writeCh)
+	<-done
+	verifAssert(len(c.writeCh) == queuedWhenAcknowledged, "no-retransmission-after-the-acknowledgement")
+	if queuedWhenAcknowledged == 1 {
+		verifCover("retransmitted-before-the-acknowledgement")
+	} else {
+		verifCover("acknowledged-before-the-tick")
+	}
+}
